@@ -57,6 +57,7 @@ func (s *stub) plan() (chunk int, lat int64, fail bool) {
 }
 
 func (s *stub) read(p []byte) (int, error) {
+	t0 := simrt.PeekNS()
 	chunk, lat, fail := s.plan()
 	if lat > 0 {
 		time.Sleep(time.Duration(lat))
@@ -79,11 +80,12 @@ func (s *stub) read(p []byte) (int, error) {
 	}
 	copy(p, s.data[:n])
 	s.data = s.data[n:]
-	logStream("stub", "Read", int64(n), err, p[:n], lat, 0)
+	logStream("stub", "Read", int64(n), err, p[:n], simrt.PeekNS()-t0, 0)
 	return n, err
 }
 
 func (s *stub) write(p []byte) (int, error) {
+	t0 := simrt.PeekNS()
 	chunk, lat, fail := s.plan()
 	if lat > 0 {
 		time.Sleep(time.Duration(lat))
@@ -102,7 +104,7 @@ func (s *stub) write(p []byte) (int, error) {
 		err = io.ErrShortWrite
 	}
 	s.data = append(s.data, p[:n]...)
-	logStream("stub", "Write", int64(n), err, p[:n], lat, 0)
+	logStream("stub", "Write", int64(n), err, p[:n], simrt.PeekNS()-t0, 0)
 	return n, err
 }
 
@@ -117,6 +119,7 @@ func (s *stub) close() error {
 
 // writeTo drains the source into w with the stub's own chunking (one planned call).
 func (s *stub) writeTo(w io.Writer) (int64, error) {
+	t0 := simrt.PeekNS()
 	_, lat, fail := s.plan()
 	if lat > 0 {
 		time.Sleep(time.Duration(lat))
@@ -131,13 +134,14 @@ func (s *stub) writeTo(w io.Writer) (int64, error) {
 	if werr != nil && err == nil {
 		err = werr
 	}
-	logStream("stub", "WriteTo", int64(m), err, s.data[:m], lat, 0)
+	logStream("stub", "WriteTo", int64(m), err, s.data[:m], simrt.PeekNS()-t0, 0)
 	s.data = s.data[m:]
 	return int64(m), err
 }
 
 // readFrom fills the sink from r (one planned call).
 func (s *stub) readFrom(r io.Reader) (int64, error) {
+	t0 := simrt.PeekNS()
 	_, lat, fail := s.plan()
 	if lat > 0 {
 		time.Sleep(time.Duration(lat))
@@ -163,7 +167,7 @@ func (s *stub) readFrom(r io.Reader) (int64, error) {
 	if fail && err == nil {
 		err = ErrInjected
 	}
-	logStream("stub", "ReadFrom", total, err, nil, lat, 0)
+	logStream("stub", "ReadFrom", total, err, nil, simrt.PeekNS()-t0, 0)
 	return total, err
 }
 
